@@ -59,7 +59,7 @@ def cases(draw, exhaustive=False):
         "spec": spec,
         "path": draw(st.sampled_from(build.BUILD_PATHS)),
         "order": list(order[:k]),
-        "route": draw(st.sampled_from(["gene", "gene", "kmg_obj", "kmg_id", "kmg_index", "kmg_split"])),
+        "route": draw(st.sampled_from(["gene", "gene", "kmg_obj", "kmg_id", "kmg_index", "kmg_split", "kmg_dictlist"])),
         "context": draw(st.booleans()),
         "rxn_ko": draw(st.one_of(st.none(), st.integers(0, 20))),
         "pre": draw(st.sampled_from([0, 0, 1, 2])),
@@ -209,6 +209,10 @@ def run_order(case, order, ctx, classes):
                     continue
                 if route == "kmg_obj":
                     arg = [model.genes.get_by_id(g) for g in chunk]
+                elif route == "kmg_dictlist":
+                    from cobra import DictList
+
+                    arg = DictList(model.genes.get_by_id(g) for g in chunk)
                 elif route == "kmg_index":
                     arg = [model.genes.index(g) for g in chunk]
                 else:
